@@ -214,6 +214,13 @@ func (st *SlimTrie) getGEPath(key string) ([]int32, bool) {
 		panic("incomplete slim does not support scanning. requires InnerPrefixes and LeafPrefixes")
 	}
 
+	// InnerPrefixes is never nil in a built slim: without option InnerPrefix
+	// it stores only the length of every prefix(step), not the content.
+	// In such case a key can not be rebuilt.
+	if ips := st.inner.InnerPrefixes; ips.EltCnt > 0 && ips.PositionBM == nil {
+		panic("incomplete slim does not support scanning. requires InnerPrefixes and LeafPrefixes")
+	}
+
 	eqID := int32(0)
 	// the smallest child id ever seen that is greater than key.
 	rID := int32(-1)
